@@ -124,3 +124,15 @@ func VH_C15_config() {
 	}
 	rt.Observe("keys", len(ref))
 }
+
+// VHNewGoGitConfig returns the real go-git backed local configuration (reader and writer
+// of gogit_config.go) over a fresh in-memory store holding the given foreign keys
+// (section.key or section.subsection.key).
+func VHNewGoGitConfig(foreign map[string]string) Config {
+	vhRaw = format.New()
+	c := &goGitConfig{ConfigRead: &goGitConfigReader{getConfig: vhCfgGet}, ConfigWrite: &goGitConfigWriter{}}
+	for k, v := range foreign {
+		_ = c.StoreString(k, v)
+	}
+	return c
+}
